@@ -150,6 +150,38 @@ CLAIMS = {
   note="Trusted: clang AST/CFG of tu/holders.cpp, tu/typelevel.cpp; engagement predicates per class are a frozen table (flag field, "
        "storage field, accessor names) confirmed by reading.",
   design_ref="DESIGN.md §3 C17, §2 O6/D/R/W"),
+ "C01": dict(
+  technique="static analysis: compile-time witnesses (static_assert over the pool's own constexpr size-class functions), expression agreement after copy propagation, evaluated alignment constants, loop/step shape of the carving code",
+  text="Decides structural clauses of C01 for four policy geometries: (W2) for every size 1..max the size class is in range, "
+       "large enough and minimal, classes are increasing powers of two >= 8, frame geometry fields are const (compiler-evaluated); "
+       "(E) realloc/free/deallocate/get_size compute the frame by one expression ((p-1) & ~(A-1)) whose A equals the alignment "
+       "both constructors place the frame at; slab carving keeps the first-object offset a multiple of the item size covering "
+       "the header, records (address+overhead, slabsize-overhead, index) and carves objects at address+k*item_size below length; "
+       "allocate returns the popped head / the frame's object address, get_size reports the class size / frame length; zero-"
+       "length requests become one byte. Does not decide pairwise disjointness or containment over histories of runtime addresses.",
+  note="Trusted: clang constant evaluator and AST/CFG; witness policies PolPlain/PolFull/PolPoisonPlain/PolGeo/PolSmall.",
+  design_ref="DESIGN.md §3 C01, §2 W2/E/N"),
+ "C02": dict(
+  technique="static analysis: dominating null-test facts, ordering by dominance/reachability, reaching definitions of the copy length, branch-fact guarded calls",
+  text="Decides structural clauses of C02: realloc/free/deallocate/get_size never read the frame header without the pointer "
+       "known non-null; realloc(null,n) returns allocate(n) and realloc(p,0) frees and returns null; the copying fallback "
+       "copies from the old block before freeing it, with a length whose only definitions are the old usable size; in-place "
+       "helpers succeed only under new_size <= usable size and only then is the old pointer returned; _construct_slab is "
+       "called only when the bucket has no head slab; free decides 'was full' before pushing and re-inserts + repairs the head; "
+       "a slab that fills up leaves the partial tree. Does not decide byte equality of contents nor the footprint bound itself.",
+  note="Trusted: clang AST/CFG of tu/slab.cpp (four policy instantiations).",
+  design_ref="DESIGN.md §3 C02, §2 N/E"),
+ "C03": dict(
+  technique="static analysis: value provenance by copy propagation, who-may-call, expression agreement, call-order (dominance) typestate for poison/unpoison",
+  text="Decides structural clauses of C03: the length given to Policy::map is the value recorded in sb_reservation and the "
+       "result is recorded in sb_base (both constructors, aligned and unaligned policies); Policy::unmap has exactly one call "
+       "site, fed from those two header fields read before the header is poisoned, reached only for non-slab frames; the page "
+       "counter is raised and lowered by one and the same expression of the frame length; with poisoning policies every "
+       "placement-construction in pool memory is dominated by an unpoison of that address, free runs unpoison_expand -> poison "
+       "-> unpoison(link) before the link write, allocate re-poisons the link word and unpoisons `length` bytes before "
+       "returning, and no header is read after poison(frame). Does not decide exactly-once unmapping over histories.",
+  note="Trusted: clang AST/CFG; poison rules are evaluated on the two poisoning witness policies only.",
+  design_ref="DESIGN.md §3 C03, §2 E/Z"),
 }
 
 NOT_YET = "check not built yet in this revision (see DESIGN.md §7 order of work); not claimed until it exists"
